@@ -71,14 +71,14 @@ ZoomClauses(e) ==
      <<"layoutExact", Range(e.obs.listing) = {<<"resolutions", ToString(r)>> : r \in want} /\ Len(e.obs.listing) = Cardinality(want)>>,
      <<"multiresRecognised", e.obs.multires>>,
      <<"baseFaithful", \A r \in Range(e.case.base_res) :
-          /\ LevelOf(e.obs.levels, r).px = CoarsenBy(t, r \div b0, e.case.px, <<"sum">>)
+          /\ LevelOf(e.obs.levels, r).px = CoarsenBy(t, r \div b0, e.case.px, <<e.case.agg>>)
           /\ LevelOf(e.obs.levels, r).table = CoarsenTable(t, r \div b0)>>,
      \* a base level is a COPY of the cooler supplied for it: what only that cooler carries (an extra bin column, its
      \* metadata) is there too - also when a smaller base divides it
      <<"baseFaithful:copyNotRederived", ~e.case.tagged \/ \A r \in Range(e.case.base_res) :
           LevelOf(e.obs.levels, r).tag = <<r>> /\ LevelOf(e.obs.levels, r).meta_base = r>>,
      <<"levelIsDirectCoarsening", \A r \in want :
-          /\ LevelOf(e.obs.levels, r).px = (IF r = b0 THEN e.case.px ELSE CoarsenBy(t, r \div b0, e.case.px, <<"sum">>))
+          /\ LevelOf(e.obs.levels, r).px = (IF r = b0 THEN e.case.px ELSE CoarsenBy(t, r \div b0, e.case.px, <<e.case.agg>>))
           /\ LevelOf(e.obs.levels, r).table = (IF r = b0 THEN t ELSE CoarsenTable(t, r \div b0))>>,
      <<"levelBinsize", \A r \in want : LevelOf(e.obs.levels, r).raw.binsize \in {r, 0}>> >>
   \o FlatCSR([j \in DOMAIN e.obs.levels |-> e.obs.levels[j].raw], 1)
